@@ -420,40 +420,60 @@ theorem walkTimes_fold : FoldOK .times walkTimes := by
 /-! ## the table and the assembled theorem -/
 
 /-- every entry of the table folds, except `symbol` (not a constant), `function` (`f(3)` stays an
-application); the quantifier entries fold too (`walkForall_fold`, `walkExists_fold`) but are not
+application) and `arrayValue` (an array value with constant arguments stays an array value, which is not
+a scalar constant); the quantifier entries fold too (`walkForall_fold`, `walkExists_fold`) but are not
 needed for ground terms -/
 theorem ruleOf_fold : ∀ (op : Op) (e : Entry), ruleOf op = some e → op ≠ .symbol → op ≠ .function →
-    op.isQuantifier = false → FoldOK op e := by
-  intro op e h hs hf hq
+    op ≠ .arrayValue → op.isQuantifier = false → FoldOK op e := by
+  intro op e h hs hf hav hq
   cases op <;> simp only [ruleOf] at h <;> (try (cases h; done)) <;>
     (obtain rfl := Option.some.inj h) <;>
     first
-    | exact absurd rfl hs | exact absurd rfl hf | (cases hq; done)
+    | exact absurd rfl hs | exact absurd rfl hf | exact absurd rfl hav | (cases hq; done)
     | exact walkAnd_fold | exact walkOr_fold | exact walkNot_fold | exact walkIff_fold | exact walkImplies_fold
     | exact walkIte_fold | exact walkEquals_fold | exact walkLe_fold | exact walkLt_fold | exact walkToReal_fold
     | exact keep_fold _ rfl
     | exact walkPlus_fold | exact walkTimes_fold | exact walkMinus_fold | exact walkDiv_fold
+    -- bit-vector family (Proofs/SimpBVFold.lean)
+    | exact BVRules.walkBvAnd_fold | exact BVRules.walkBvOr_fold | exact BVRules.walkBvXor_fold
+    | exact BVRules.walkBvNot_fold | exact BVRules.walkBvNeg_fold | exact BVRules.walkBvAdd_fold
+    | exact BVRules.walkBvSub_fold | exact BVRules.walkBvMul_fold | exact BVRules.walkBvUdiv_fold
+    | exact BVRules.walkBvUrem_fold | exact BVRules.walkBvSdiv_fold | exact BVRules.walkBvSrem_fold
+    | exact BVRules.walkBvLshl_fold | exact BVRules.walkBvLshr_fold | exact BVRules.walkBvAshr_fold
+    | exact BVRules.walkBvUlt_fold | exact BVRules.walkBvUle_fold | exact BVRules.walkBvSlt_fold
+    | exact BVRules.walkBvSle_fold | exact BVRules.walkBvComp_fold | exact BVRules.walkBvConcat_fold
+    | exact BVRules.walkBvExtract_fold | exact BVRules.walkBvRol_fold | exact BVRules.walkBvRor_fold
+    | exact BVRules.walkBvZext_fold | exact BVRules.walkBvSext_fold | exact BVRules.walkBvToNatural_fold
+    -- string family (Proofs/SimpStr.lean)
+    | exact StrRules.walkStrLength_fold | exact StrRules.walkStrConcat_fold | exact StrRules.walkStrCharAt_fold
+    | exact StrRules.walkStrContains_fold | exact StrRules.walkStrIndexOf_fold | exact StrRules.walkStrReplace_fold
+    | exact StrRules.walkStrSubstr_fold | exact StrRules.walkStrPrefixOf_fold | exact StrRules.walkStrSuffixOf_fold
+    | exact StrRules.walkStrToInt_fold | exact StrRules.walkIntToStr_fold
+    -- array family (Proofs/SimpArray.lean): vacuous, a scalar constant has no array sort
+    | exact ArrayRules.walkArraySelect_fold | exact ArrayRules.walkArrayStore_fold
 
 /-- the table lemma including the quantifier entries -/
 theorem ruleOf_fold' : ∀ (op : Op) (e : Entry), ruleOf op = some e → op ≠ .symbol → op ≠ .function →
-    FoldOK op e := by
-  intro op e h hs hf
+    op ≠ .arrayValue → FoldOK op e := by
+  intro op e h hs hf hav
   by_cases hq : op.isQuantifier = true
   · cases op <;> simp only [Op.isQuantifier, Bool.false_eq_true] at hq <;> simp only [ruleOf] at h <;>
       (obtain rfl := Option.some.inj h)
     · exact walkForall_fold
     · exact walkExists_fold
-  · exact ruleOf_fold op e h hs hf (by simpa using hq)
+  · exact ruleOf_fold op e h hs hf hav (by simpa using hq)
 
-/-- no symbol, no function application, no quantifier -/
+/-- no symbol, no function application, no quantifier, no array value (a constant array value is not
+a scalar constant: terms containing one are outside fold completeness) -/
 def ground : Term → Bool
-  | .node op args _ => (op != .symbol && op != .function && !op.isQuantifier) && (args.map ground).all id
+  | .node op args _ =>
+    (op != .symbol && op != .function && op != .arrayValue && !op.isQuantifier) && (args.map ground).all id
 
 theorem ground_node {op : Op} {args : List Term} {p : Payload} (h : ground (.node op args p) = true) :
-    (op ≠ .symbol ∧ op ≠ .function ∧ op.isQuantifier = false) ∧ ∀ a ∈ args, ground a = true := by
+    (op ≠ .symbol ∧ op ≠ .function ∧ op ≠ .arrayValue ∧ op.isQuantifier = false) ∧ ∀ a ∈ args, ground a = true := by
   simp only [ground, Bool.and_eq_true, bne_iff_ne, ne_eq, Bool.not_eq_true', List.all_eq_true, List.mem_map,
     id] at h
-  exact ⟨⟨h.1.1.1, h.1.1.2, h.1.2⟩, fun a ha => h.2 _ ⟨a, ha, rfl⟩⟩
+  exact ⟨⟨h.1.1.1.1, h.1.1.1.2, h.1.1.2, h.1.2⟩, fun a ha => h.2 _ ⟨a, ha, rfl⟩⟩
 
 /-- **fold completeness**: a well-formed ground term of the fragment whose evaluation meets no
 division by zero simplifies to a constant -/
@@ -462,7 +482,7 @@ theorem fold_complete : (t : Term) → (τ : Ty) → (hwf : t.wf = true) → (hf
     (hd : div0 I t = false) → IsConst (simp t)
   | .node op args p => fun τ hwf hfr hty hg I hI hd => by
     obtain ⟨⟨e, he, hgd⟩, hfa⟩ := inFragWith_node hfr
-    obtain ⟨⟨hs, hf, hq⟩, hga⟩ := ground_node hg
+    obtain ⟨⟨hs, hf, hav, hq⟩, hga⟩ := ground_node hg
     have hda := div0_args_false I op args p hq hd
     -- the arguments simplify to constants
     have ih : ∀ a ∈ args, IsConst (simp a) := by
@@ -500,6 +520,6 @@ theorem fold_complete : (t : Term) → (τ : Ty) → (hwf : t.wf = true) → (hf
       show simpWith ruleOf (.node op args p) = e.rule p (args.map (simpWith ruleOf))
       rw [simpWith, he]
     rw [hsimp]
-    exact (ruleOf_fold op e he hs hf hq).fold p _ τ hwf' hty' hgd' hc' I hd'
+    exact (ruleOf_fold op e he hs hf hav hq).fold p _ τ hwf' hty' hgd' hc' I hd'
 
 end PySMT.Simplifier
